@@ -1,67 +1,61 @@
 /-
   Fpx, part 4: `deduplicate_namespaces` in the forest model on a forest satisfying the invariant:
-  every fix-up node recorded by the first loop is an ELEMENT of the tree (`ddWalk`, the structural
-  form of the loop: Lemmas/ScopeRebuild.lean), so the call list consists of `namespaces_mut(h).remove`
-  calls on elements and runs to the end — the call never fails and never panics.
+  every node recorded in `to_remove` by the traversal of a pass is an ELEMENT of the tree (`dpRem`,
+  the structural form of the traversal: Lemmas/DedupWalk.lean), so the call list of EVERY pass
+  consists of `namespaces_mut(h).remove` calls on elements and runs to the end; by induction on the
+  fuel the loop never fails and never panics.
 -/
 import XotModel.Lemmas.FpxRepair
-import XotModel.Lemmas.ScopeRebuild
+import XotModel.Lemmas.DedupWalk
 
 namespace XotModel
 open Repair
 
 mutual
-theorem fpx_ddWalk_elem (env : Env) : ∀ (t : Tree) (top : List (Nat × Nat)) (tr : Tracker) (fp : Path × List Nat),
-    fp ∈ (ddWalk env top t tr).2 → ElemAt t fp.1
-  | .node v ks, top, tr, fp, h => by
-    cases v with
-    | element name =>
-      simp only [ddWalk, List.mem_append] at h
-      rcases h with h | h
-      · obtain ⟨j, k, q', hk, hq, n, kk, hn⟩ := fpx_ddWalkList_elem env ks _ 0 _ fp h
+theorem fpx_dpRem_elem (env : Env) : ∀ (t : Tree) (K : List (List (Nat × Nat))) (rm : Path × Nat),
+    rm ∈ dpRem env K t → ElemAt t rm.1
+  | .node v ks, K, rm, h => by
+    by_cases he : v.isElement = true
+    · simp only [dpRem, he, ↓reduceIte, List.mem_append, List.mem_map] at h
+      rcases h with ⟨kv, _, rfl⟩ | h
+      · cases v with
+        | element name => exact ⟨name, ks, rfl⟩
+        | document | text _ | pi _ _ | comment _ | «attribute» _ _ | «namespace» _ _ =>
+          simp [Value.isElement] at he
+      · obtain ⟨j, k, q', hk, hq, n, kk, hn⟩ := fpx_dpRemList_elem env ks _ 0 rm h
         refine ⟨n, kk, ?_⟩
         rw [hq]; simp only [Tree.at?, Nat.zero_add, hk]; exact hn
-      · split at h
-        · simp only [List.mem_singleton] at h; subst h; exact ⟨name, ks, rfl⟩
-        · cases h
-    | document | text _ | pi _ _ | comment _ | «attribute» _ _ | «namespace» _ _ =>
-      simp only [ddWalk] at h
-      obtain ⟨j, k, q', hk, hq, n, kk, hn⟩ := fpx_ddWalkList_elem env ks _ 0 _ fp h
+    · have he' : v.isElement = false := by simpa using he
+      simp only [dpRem, he', Bool.false_eq_true, ↓reduceIte] at h
+      obtain ⟨j, k, q', hk, hq, n, kk, hn⟩ := fpx_dpRemList_elem env ks _ 0 rm h
       refine ⟨n, kk, ?_⟩
       rw [hq]; simp only [Tree.at?, Nat.zero_add, hk]; exact hn
-theorem fpx_ddWalkList_elem (env : Env) : ∀ (ks : List Tree) (top : List (Nat × Nat)) (i : Nat) (tr : Tracker)
-    (fp : Path × List Nat), fp ∈ (ddWalk.ddWalkList env top i ks tr).2 →
-      ∃ j k q', ks[j]? = some k ∧ fp.1 = (i + j) :: q' ∧ ElemAt k q'
-  | [], _, _, _, _, h => by simp [ddWalk.ddWalkList] at h
-  | k :: ks, top, i, tr, fp, h => by
-    simp only [ddWalk.ddWalkList, List.mem_append, List.mem_map] at h
-    rcases h with ⟨fp', h', rfl⟩ | h
-    · exact ⟨0, k, fp'.1, rfl, by simp [prefixPath], fpx_ddWalk_elem env k top tr fp' h'⟩
-    · obtain ⟨j, k', q', hk, hq, he⟩ := fpx_ddWalkList_elem env ks top (i + 1) _ fp h
+theorem fpx_dpRemList_elem (env : Env) : ∀ (ks : List Tree) (K : List (List (Nat × Nat))) (i : Nat)
+    (rm : Path × Nat), rm ∈ dpRem.dpRemList env K i ks →
+      ∃ j k q', ks[j]? = some k ∧ rm.1 = (i + j) :: q' ∧ ElemAt k q'
+  | [], _, _, _, h => by simp [dpRem.dpRemList] at h
+  | k :: ks, K, i, rm, h => by
+    simp only [dpRem.dpRemList, List.mem_append, List.mem_map] at h
+    rcases h with ⟨rm', h', rfl⟩ | h
+    · exact ⟨0, k, rm'.1, rfl, by simp [prefixRem], fpx_dpRem_elem env k K rm' h'⟩
+    · obtain ⟨j, k', q', hk, hq, he⟩ := fpx_dpRemList_elem env ks K (i + 1) rm h
       exact ⟨j + 1, k', q', by simpa using hk, by rw [hq]; congr 1; omega, he⟩
 end
 
-/-- Every fix-up node of the first loop is an element below the start node. -/
-theorem fpx_dedupFixups_elem (env : Env) (path : Path) (sub : Tree) :
-    ∀ fp ∈ dedupFixups env path sub, ∃ q', fp.1 = path ++ q' ∧ ElemAt sub q' := by
-  intro fp h
-  rw [dedupFixups_eq] at h
-  obtain ⟨fp', h', rfl⟩ := List.mem_map.mp h
-  exact ⟨fp'.1, rfl, fpx_ddWalk_elem env sub [] [] fp' h'⟩
-
-theorem fpx_dedupFixupPrefixes_fst (t : Tree) (fixups : List (Path × List Nat)) :
-    ∀ fp ∈ dedupFixupPrefixes t fixups, ∃ fx ∈ fixups, fp.1 = fx.1 := by
-  intro fp h
-  unfold dedupFixupPrefixes at h
-  obtain ⟨fx, hfx, h2⟩ := List.mem_flatMap.mp h
-  obtain ⟨ns, _, rfl⟩ := List.mem_map.mp h2
-  exact ⟨fx, hfx, rfl⟩
+/-- Every node in `to_remove` of a pass is an element below the start node. -/
+theorem fpx_dedupToRemove_elem (env : Env) (path : Path) (sub : Tree) :
+    ∀ rm ∈ dedupToRemove env path sub, ∃ q', rm.1 = path ++ q' ∧ ElemAt sub q' := by
+  intro rm h
+  rw [dedupToRemove_eq] at h
+  obtain ⟨rm', h', rfl⟩ := List.mem_map.mp h
+  exact ⟨rm'.1, rfl, fpx_dpRem_elem env sub [] rm' h'⟩
 
 open HTree
 
 namespace Forest
 
-/-- The call list of `deduplicate_namespaces(node)`: removals from the namespace maps of elements. -/
+/-- The call list of ONE PASS of `deduplicate_namespaces(node)`, on any forest with the invariant:
+    removals from the namespace maps of elements. -/
 theorem fpx_dedupCalls {f : Forest} (hi : f.Inv) (env : Env) (node : Nat) :
     ∀ c ∈ f.dedupCalls env node, c.isNsEdit f ∧ ∃ h pfx, c = .mapRemove .namespaces h pfx := by
   intro c hc
@@ -81,28 +75,48 @@ theorem fpx_dedupCalls {f : Forest} (hi : f.Inv) (env : Env) (node : Nat) :
       | some sub =>
         rw [hs] at hc
         simp only at hc
-        obtain ⟨fp, hfp, h2⟩ := List.mem_flatMap.mp hc
-        cases hh : r.handleAt fp.1 with
+        obtain ⟨rm, hrm', h2⟩ := List.mem_flatMap.mp hc
+        cases hh : r.handleAt rm.1 with
         | none => rw [hh] at h2; cases h2
         | some h =>
           rw [hh] at h2
-          obtain ⟨pfx, _, rfl⟩ := List.mem_map.mp h2
-          refine ⟨?_, h, pfx, rfl⟩
-          obtain ⟨fx, hfx, he⟩ := fpx_dedupFixupPrefixes_fst _ _ fp hfp
-          obtain ⟨q', hq, name, ks, hel⟩ := fpx_dedupFixups_elem env path sub fx hfx
+          simp only [List.mem_singleton] at h2
+          subst h2
+          refine ⟨?_, h, rm.2, rfl⟩
+          obtain ⟨q', hq, name, ks, hel⟩ := fpx_dedupToRemove_elem env path sub rm hrm'
           have hrm : r ∈ f.roots := by
             unfold rootOf? at hr; exact List.mem_of_find?_eq_some hr
-          have hat : r.erase.at? fp.1 = some (.node (.element name) ks) := by
-            rw [he, hq, fpx_at?_append, hs]; exact hel
+          have hat : r.erase.at? rm.1 = some (.node (.element name) ks) := by
+            rw [hq, fpx_at?_append, hs]; exact hel
           show f.isElement h = true
           rw [fpx_isElement_of_at? hi.nodup hrm hh hat]; rfl
+
+/-- Every pass runs to its end; so the loop, whatever the fuel: never an error, never a panic, the
+    invariant is kept and no node changes between element and non-element. -/
+theorem fpx_dedupLoop (env : Env) (node : Nat) : ∀ (fuel : Nat) {f : Forest}, f.Inv →
+    (dedupLoop env node fuel f).2 = .ok ∧ (dedupLoop env node fuel f).1.Inv ∧
+      ∀ x, (dedupLoop env node fuel f).1.isElement x = f.isElement x
+  | 0, _, hi => ⟨rfl, hi, fun _ => rfl⟩
+  | fuel + 1, f, hi => by
+    unfold dedupLoop
+    dsimp only
+    split
+    · exact ⟨rfl, hi, fun _ => rfl⟩
+    · obtain ⟨h1, h2, h3⟩ := fpx_runCalls_ok (f.dedupCalls env node) hi
+        (fun c hc => (fpx_dedupCalls hi env node c hc).1)
+      rcases hr : f.runCalls (f.dedupCalls env node) with ⟨f', r⟩
+      rw [hr] at h1 h2 h3
+      simp only at h1
+      subst h1
+      obtain ⟨h4, h5, h6⟩ := fpx_dedupLoop env node fuel h2
+      exact ⟨h4, h5, fun x => by rw [h6 x, h3 x]⟩
 
 /-- **`deduplicate_namespaces` at forest level never fails and never panics**; the invariant is kept and
     no node changes between element and non-element. -/
 theorem fpx_deduplicateNamespaces {f : Forest} (hi : f.Inv) (env : Env) (node : Nat) :
     (f.deduplicateNamespaces env node).2 = .ok ∧ (f.deduplicateNamespaces env node).1.Inv ∧
       ∀ x, (f.deduplicateNamespaces env node).1.isElement x = f.isElement x :=
-  fpx_runCalls_ok _ hi (fun c hc => (fpx_dedupCalls hi env node c hc).1)
+  fpx_dedupLoop env node _ hi
 
 end Forest
 end XotModel
